@@ -25,14 +25,14 @@ ScenarioOf(ms, paths) ==
       perMember == Flatten([i \in 1..Len(s) |->
                      << VolIndex(s[i].name, i - 1), VolIndex(ToUpper(s[i].name), i - 1), VolIndex(ToLower(s[i].name), i - 1),
                         VolIndex(<<46,47>> \o s[i].name, i - 1), VolIndex(<<113,47>> \o s[i].name, NoIndex),      \* "q/name" is a different path: not a member
-                        VolStream(i - 1, s[i].data), VolExtract(i - 1, <<120,47>> \o s[i].name, s[i].data),
+                        VolStream(i - 1, s[i].data), VolStreamByName(ToUpper(s[i].name), s[i].data), VolExtract(i - 1, <<120,47>> \o s[i].name, s[i].data),
                         VolExtractByName(ToUpper(s[i].name), <<121,47>> \o s[i].name, s[i].data) >>])
   IN IF samePath THEN <<>> ELSE
      << MkDir(<<100>>), MkDir(<<68>>) >> \o puts \o << Put(OutName, << Lit(<<1, 2, 3>>) >>) >>
      \o (IF refused
          THEN << VolCreate(OutName, paths, "refuse"), FileEq(OutName, << Lit(<<1, 2, 3>>) >>) >>
               \o [i \in 1..n |-> FileEq(paths[i], ms[i].data)]
-         ELSE << VolCreate(OutName, paths, "ok"), FileEq(OutName, Layout(s)), VolOpen(OutName, listing) >>
+         ELSE << VolCreate(OutName, paths, "ok"), FileEq(OutName, Layout(s)), VolOpenL(OutName, listing, FileLen(s)) >>
               \o perMember \o << VolMemberErr(Len(s)), VolMemberErr(Len(s) + 1), VolIndex(<<113>>, NoIndex), VolExtractAll(<<120,122>>) >>)
 Scenario(ixs, szs, ds) == ScenarioOf([i \in 1..Len(ixs) |-> Member(ixs[i], szs[i], i)], [i \in 1..Len(ixs) |-> PathOf(ds[i], ixs[i])])
 \* the output path names one of the inputs (same spelling up to letter case and a leading "./"): refused, nothing modified
